@@ -178,7 +178,9 @@ def main():
                         "wall_s": round(time.time() - t1, 2),
                         "crosscheck": xc,
                         "violations": [v["label"] for v in res.get("violations") or []]})
-        # counterexamples: replay natively before believing them
+        # counterexamples: replay natively before believing them. The engine keeps up
+        # to 4 counterexamples per label; a label is confirmed if any of them reproduces.
+        by_label = {}
         for n, v in enumerate(res.get("violations") or []):
             if pkg not in replayers:
                 replayers[pkg] = build_replayer(pkg, pid + "-" + os.path.basename(pkg))
@@ -197,15 +199,24 @@ def main():
                 confirmed = True
             if v["label"].endswith("(exit)") and rr.returncode == 253:
                 confirmed = True  # os.Exit(-3) ended the native process
-            if not confirmed:
-                errors.append("unconfirmed-counterexample %s label=%r replay=%s native output: %s" %
-                              (label, v["label"], rp, rr.stdout[-600:]))
+            k = (v["label"], v.get("known", ""))
+            ent = by_label.setdefault(k, {"confirmed": None, "unconfirmed": []})
+            if confirmed:
+                if ent["confirmed"] is None:
+                    ent["confirmed"] = rp
+            else:
+                ent["unconfirmed"].append((rp, rr.stdout[-400:]))
+        for (lab, key), ent in by_label.items():
+            if ent["confirmed"] is None:
+                rp, out_ = ent["unconfirmed"][0]
+                errors.append("unconfirmed-counterexample %s label=%r replay=%s (none of %d counterexamples reproduced natively) native output: %s" %
+                              (label, lab, rp, len(ent["unconfirmed"]), out_))
                 continue
-            key = v.get("known", "")
+            rp = ent["confirmed"]
             if key and key in kf_open:
                 known_hits.append((key, kf_open[key], rp))
             else:
-                violations.append((v["label"], rp, key))
+                violations.append((lab, rp, key))
     # evidence
     ev = {
         "property_id": pid, "tier": tier, "seed": seed, "level": "other",
